@@ -140,4 +140,5 @@ MUTANTS += [
  {"id": "revert-F-D4", "props": ["C09"], "edits": [("pymtl3/dsl/ComponentLevel3.py", "              if u is not v and u is not writer and u in net and u.slice_overlap( v ):", "              if False:")]},
  {"id": "revert-F-S7", "props": ["C02"], "edits": [("pymtl3/dsl/AstHelper.py", "    for x in node.keywords:\n      self.visit( x.value )\n", ""), ("pymtl3/dsl/AstHelper.py", "      self.generic_visit( node )\n      return\n", "      return\n")]},
  {"id": "revert-F-W9", "props": ["C10"], "edits": [("pymtl3/passes/rtlir/behavioral/BehavioralRTLIRTypeCheckL2Pass.py", "          if nbits > node.Type.get_dtype().get_length():", "          if False:")]},
+ {"id": "revert-F-T9", "props": ["C03"], "edits": [("pymtl3/passes/backends/verilog/translation/behavioral/VBehavioralTranslatorL1.py", "    if isinstance( node.Type, rt.Port ) or \\\n       ( isinstance( node.Type, rt.Array ) and isinstance( node.Type.get_sub_type(), rt.Port ) ):", "    if isinstance( node.Type, rt.Port ):")]},
 ]
